@@ -33,6 +33,7 @@ var (
 	flagChildOut = flag.String("child-out", "", "internal: results file of the child")
 	flagChildD42 = flag.Bool("child-d42", false, "internal: run the D42 replay in this child process")
 	flagChildPar = flag.Int("child-par", 0, "internal: scenarios in flight")
+	flagChildD70 = flag.Bool("child-d70", false, "internal: run the D70 replay (ApplyConfig while sending) in this child process")
 )
 
 type job struct {
@@ -196,6 +197,15 @@ func crashClass(sp scenarioSpec) string {
 
 // childMain: run the jobs of the spec file, stream records.
 func childMain(env *vh.Env) {
+	if *flagChildD70 {
+		budget := 16 * time.Second
+		if env.Thorough {
+			budget = 60 * time.Second
+		}
+		b, _ := json.Marshal(runD70(env.Seed, budget))
+		os.WriteFile(*flagChildOut, b, 0o644)
+		return
+	}
 	if *flagChildD42 {
 		budget, trials := 25*time.Second, 66
 		if env.Thorough {
